@@ -100,41 +100,54 @@ def r2(cx, rec):
     rng = e[2][0]
     stride = const_of(e[2][1])
     fields = dict(rng[4]) if rng[0] == 'agg' else {}
+    plen = C.params_of(P)[-1][0]
     rec.site(P, sb_calls[0], 'range %s step %s' % (show(rng)[:60], stride))
     rec.need(rng[0] == 'agg' and rng[2] == 'std::ops::Range' and const_of(fields.get('start', ('other',))) and const_of(fields['start'])[0] == 0
-             and access_path(fields.get('end', ('other', ''))) == 'piece_length', 'plan-range', P, sb_calls[0], 'planned range is %s, expected 0..piece_length' % show(rng)[:80])
+             and access_path(fields.get('end', ('other', ''))) == plen, 'plan-range', P, sb_calls[0], 'planned range is %s, expected 0..piece_length' % show(rng)[:80])
     rec.need(stride and (stride[1] or '').endswith('PIECE_BLOCK_SIZE'), 'plan-stride', P, sb_calls[0], 'stride is %s' % (stride,))
     # pushed tuples: (loop value, block_length) ; block_length defs
     pushes = [bb for bb in mirq.real_calls(P) if P.expr_call(bb)[4].get('name') in ('push_back', 'push')]
-    rec.need(len(pushes) == 1, 'plan-push', P, None, 'planner pushes in %d places' % len(pushes))
-    for pb in pushes:
-        t = P.expr_call(pb)[2][1]
+    # two idioms: a loop pushing (begin, length), or `range.step_by(..).map(|begin| (begin, length)).collect()`
+    plans = [(P, pb, P.expr_call(pb)[2][1], (lambda e: 'next(' in show(e))) for pb in pushes]
+    if not pushes:
+        ret = mirq.init_of(P.expr_local(0))
+        maps = [x for x in walk(ret, inl=False) if x[0] == 'call' and x[4].get('name') == 'map' and x[2] and
+                any(y[0] == 'call' and y[3] == sb_calls[0] for y in walk(x[2][0], inl=False))]
+        for m in maps:
+            clo = [a for a in m[2][1:] if a[0] == 'closure']
+            if clo:
+                cf = F.fn(clo[0][1])
+                pn = mirq.closure_param(cf)
+                plans.append((cf, None, mirq.closure_result(cf), (lambda e, pn=pn: access_path(e) == pn)))
+    rec.need(len(plans) == 1, 'plan-push', P, None, 'planner produces elements in %d places' % len(plans))
+    B = plans[0][0] if plans else P
+    for B, pb, t, is_loopval in plans:
         if not (t[0] == 'agg' and t[1] == 'tuple' and len(t[4]) == 2):
-            rec.violation('plan-tuple', P, pb, 'planned element is %s' % show(t)[:80])
+            rec.violation('plan-tuple', B, pb, 'planned element is %s' % show(t)[:80])
             continue
         beg, ln = t[4][0][1], t[4][1][1]
-        rec.need('next(' in show(beg), 'plan-begin', P, pb, 'block begin is %s, not the loop value' % show(beg)[:60])
-        alts = mirq.local_defs(P, ln[2]) if ln[0] == 'var' and len(ln) > 2 else [ln]
+        rec.need(is_loopval(beg), 'plan-begin', B, pb, 'block begin is %s, not the loop value' % show(beg)[:60])
+        alts = mirq.local_defs(B, ln[2]) if ln[0] == 'var' and len(ln) > 2 else (list(ln[1]) if ln[0] == 'phi' else [ln])
         kinds = []
         for a in alts:
             c = const_of(a)
             if c and (c[1] or '').endswith('PIECE_BLOCK_SIZE'):
                 kinds.append('full')
-            elif a[0] == 'binop' and a[1] == 'Rem' and access_path(a[2]) == 'piece_length' and const_of(a[3]) and (const_of(a[3])[1] or '').endswith('PIECE_BLOCK_SIZE'):
+            elif a[0] == 'binop' and a[1] == 'Rem' and (access_path(a[2]) or '').split('__')[-1] == plen and const_of(a[3]) and (const_of(a[3])[1] or '').endswith('PIECE_BLOCK_SIZE'):
                 kinds.append('remainder')
             else:
                 kinds.append('other:' + show(a)[:50])
-        rec.site(P, pb, 'planned lengths: %s' % kinds)
-        rec.need(sorted(kinds) == ['full', 'remainder'], 'plan-lengths', P, pb, 'planned block lengths are %s' % kinds)
+        rec.site(B, pb, 'planned lengths: %s' % kinds)
+        rec.need(sorted(kinds) == ['full', 'remainder'], 'plan-lengths', B, pb, 'planned block lengths are %s' % kinds)
     # the selecting comparison uses the same constant and the piece length
     okc = False
-    for sb in P.switches():
-        ce, ts, o = P.cond(sb)
+    for sb in B.switches():
+        ce, ts, o = B.cond(sb)
         if ce[0] == 'binop' and ce[1] in ('Gt', 'Ge', 'Lt', 'Le'):
             s = show(ce)
-            if 'PIECE_BLOCK_SIZE' in s and 'piece_length' in s and 'next(' in s:
+            if 'PIECE_BLOCK_SIZE' in s and plen in s and any(plans and plans[0][3](y) for y in walk(ce, inl=False)):
                 okc = True
-                rec.site(P, sb, 'selector %s' % s[-110:])
+                rec.site(B, sb, 'selector %s' % s[-110:])
     rec.need(okc, 'plan-selector', P, None, 'no comparison of begin + PIECE_BLOCK_SIZE with piece_length selects the last block')
     # the planner is fed the request's piece length
     for f, bb in C.callers(F, P.path):
